@@ -107,7 +107,7 @@ impl FieldPosition {
 
     pub fn to_byte(&self) -> u8 {
         if self.chunk == 0 {
-            (-(self.position as i8)) as u8
+            (self.position as i8).wrapping_neg() as u8
         } else {
             self.chunk
         }
